@@ -64,6 +64,10 @@ def apply_abstract(sig, m):
     elif k == 'Meta':
         if m['prop'] == 'unique_together':
             sig[m['m']]['ut'] = [list(t) for t in m['val']]
+        elif m['prop'] == 'constraints':
+            sig[m['m']]['cons'] = [dict(c) for c in m['ival']]
+        elif m['prop'] == 'indexes':
+            sig[m['m']]['idx'] = [dict(c) for c in m['ival']]
         elif m['prop'] == 'index_together':
             sig[m['m']]['it'] = [list(t) for t in m['val']]
     elif k == 'RenM':
